@@ -10,7 +10,7 @@ PID = "C07"
 LEVEL = "exploration"
 RULE = ("generated systems plus build files mixing sphere / cylinder / rectangle in|out restraints per residue "
         "name and half-open resid range, rw_restriction cones, explicit distance_restraints (with / without "
-        "tolerance), persistence_length batches and -cycles rings of 4-12 residues with -cycle_tol; regions are "
+        "tolerance), persistence_length batches (linear and branched molecules; the steps behind the contour length are judged from the input) and -cycles rings of 4-12 residues with -cycle_tol; regions are "
         "sized from the box so that the draws are satisfiable. From the residue positions captured after "
         "BuildSystem every selected, generated residue is tested with independent predicates R5; cone "
         "restrictions are evaluated on the minimum-image step from the growth predecessor; restrained pairs must "
